@@ -39,7 +39,12 @@ def reference(h: H.History, real_out):
     basis_fitted = False
     basis_nm_attr = h.n_modes
     last_fit_ok = False
-    prev_obs = None
+    # state of the freshly constructed object: a rejected FIRST call may already have changed it
+    try:
+        from pysensors.reconstruction import SSPOR
+        prev_obs = H.observe(SSPOR(basis=models.make_basis(h.basis, h.n_modes), optimizer=H.make_optimizer(h.opt), n_sensors=h.ctor_ns))
+    except Exception:
+        prev_obs = None
     for op_index, (op, (status, obs)) in enumerate(zip(h.ops, real_out)):
         ok = status == "ok"
         if not ok and op[0] in ("fit", "upd") and prev_obs is not None and any(
